@@ -46,6 +46,7 @@ var checks = map[string][]HarnessSpec{
 		{Name: "HarnessC10Join", Pkg: "bql", Quick: map[string]int{"ROWS": 2, "SHARED": 2, "KINDS": 0}, Thorough: map[string]int{"ROWS": 3, "SHARED": 2, "KINDS": 0}},
 		{Name: "HarnessC10Join", Pkg: "bql", Quick: map[string]int{"ROWS": 2, "SHARED": 0}, Thorough: map[string]int{"ROWS": 3, "SHARED": 0}},
 		{Name: "HarnessC10Join", Pkg: "bql", Quick: map[string]int{"ROWS": 2, "SHARED": 1, "KINDS": 1}, Thorough: map[string]int{"ROWS": 3, "SHARED": 1, "KINDS": 2}, Note: "cells of several kinds in the join column"},
+		{Name: "HarnessC10Optional", Pkg: "bql", Quick: map[string]int{"K": 2}, Thorough: map[string]int{"K": 3}, Note: "end to end through lexer, parser, planner and memory driver"},
 	},
 	"C11": {
 		{Name: "HarnessC11Reduce", Pkg: "bql", Quick: map[string]int{"ROWS": 3, "KINDS": 0}, Thorough: map[string]int{"ROWS": 4, "KINDS": 0}},
@@ -74,13 +75,14 @@ var checks = map[string][]HarnessSpec{
 		{Name: "HarnessC18Rule", Pkg: "bql", Quick: map[string]int{"ALLRULES": 0, "L": 8}, Thorough: map[string]int{"ALLRULES": 0, "L": 11}, Note: "the real START"},
 		{Name: "HarnessC18Semantic", Pkg: "bql", Quick: map[string]int{"L": 5}, Thorough: map[string]int{"L": 8}},
 		{Name: "HarnessC18NoState", Pkg: "bql", Quick: map[string]int{"L": 2}, Thorough: map[string]int{"L": 4}},
+		{Name: "HarnessC18NoStatePairs", Pkg: "bql"},
 	},
 	"C19": {
 		{Name: "HarnessC19LockStep", Pkg: "store", Quick: map[string]int{"H": 2, "WARM": 1, "HANDLES": 2}, Thorough: map[string]int{"H": 3, "WARM": 1, "HANDLES": 2}, ThoroughWall: 90 * time.Minute},
 	},
 	"C01": {
 		{Name: "HarnessC01Names", Pkg: "store", Quick: map[string]int{"H": 3}, Thorough: map[string]int{"H": 4}},
-		{Name: "HarnessC01Triples", Pkg: "store", Quick: map[string]int{"PRE": 1, "B": 1, "TEMPORAL": 0}, Thorough: map[string]int{"PRE": 2, "B": 1, "TEMPORAL": 0}},
+		{Name: "HarnessC01Triples", Pkg: "store", Quick: map[string]int{"PRE": 1, "B": 1, "RB": 2, "TEMPORAL": 0}, Thorough: map[string]int{"PRE": 2, "B": 1, "RB": 2, "TEMPORAL": 0}},
 		{Name: "HarnessC01Triples", Pkg: "store", Quick: map[string]int{"PRE": 1, "B": 1, "TEMPORAL": 1}, Thorough: map[string]int{"PRE": 1, "B": 1, "TEMPORAL": 1}, OnlyThorough: true, Note: "immutable and temporal predicates sharing identifiers; same instant in two zones"},
 		{Name: "HarnessC01Recreate", Pkg: "store"},
 	},
@@ -107,6 +109,7 @@ var checks = map[string][]HarnessSpec{
 		{Name: "HarnessC09Options", Pkg: "store", Quick: map[string]int{"METHOD": 7, "PRE": 1, "ANCHORS": 2}, Thorough: map[string]int{"METHOD": 7, "PRE": 2, "ANCHORS": 3, "OBJPRED": 1}, OnlyThorough: true},
 		{Name: "HarnessC09Options", Pkg: "store", Quick: map[string]int{"METHOD": 8, "PRE": 1, "ANCHORS": 2}, Thorough: map[string]int{"METHOD": 8, "PRE": 2, "ANCHORS": 3, "OBJPRED": 1}, OnlyThorough: false},
 		{Name: "HarnessC09Options", Pkg: "store", Quick: map[string]int{"METHOD": 9, "PRE": 1, "ANCHORS": 2}, Thorough: map[string]int{"METHOD": 9, "PRE": 2, "ANCHORS": 3, "OBJPRED": 1}, OnlyThorough: true},
+		{Name: "HarnessC09Latest", Pkg: "store", Quick: map[string]int{"ANCHORS": 2, "EXTRA": 0}, Thorough: map[string]int{"ANCHORS": 4, "EXTRA": 1}, Note: "two or three competing temporal triples"},
 		{Name: "HarnessC09PageOverflow", Pkg: "store"},
 	},
 	"C05": {
@@ -117,6 +120,7 @@ var checks = map[string][]HarnessSpec{
 		{Name: "HarnessC05LongText", Pkg: "leaf", Quick: map[string]int{"T": 7}, Thorough: map[string]int{"T": 7}},
 		{Name: "HarnessC05Int64", Pkg: "leaf", Solver: "cvc5-int", TimeoutMS: 60000},
 		{Name: "HarnessC05Triple", Pkg: "leaf", Quick: map[string]int{"SI": 1, "PI": 1, "OT": 1}, Thorough: map[string]int{"SI": 2, "PI": 2, "OT": 2}},
+		{Name: "HarnessC05Graph", Pkg: "store", Quick: map[string]int{"K": 2}, Thorough: map[string]int{"K": 3}},
 	},
 	"C16": {
 		{Name: "HarnessC16Structure", Pkg: "leaf", Quick: map[string]int{"N": 3, "ASCII": 1}, Thorough: map[string]int{"N": 4, "ASCII": 1}},
@@ -131,8 +135,8 @@ var checks = map[string][]HarnessSpec{
 		{Name: "HarnessC06LiteralDefined", Pkg: "leaf", Quick: map[string]int{"L": 3}, Thorough: map[string]int{"L": 6}, PoolDirty: true},
 		{Name: "HarnessC06LiteralPair", Pkg: "leaf", Quick: map[string]int{"L": 2}, Thorough: map[string]int{"L": 3}},
 		{Name: "HarnessC06LiteralBoolText", Pkg: "leaf"},
-		{Name: "HarnessC06Predicate", Pkg: "leaf", Quick: map[string]int{"L": 2}, Thorough: map[string]int{"L": 3}},
-		{Name: "HarnessC06Triple", Pkg: "leaf"},
+		{Name: "HarnessC06Predicate", Pkg: "leaf", Quick: map[string]int{"L": 2}, Thorough: map[string]int{"L": 3}, PoolDirty: true},
+		{Name: "HarnessC06Triple", Pkg: "leaf", PoolDirty: true},
 	},
 	"C15": {
 		{Name: "HarnessC15Node", Pkg: "leaf", Quick: map[string]int{"N": 4}, Thorough: map[string]int{"N": 6}},
@@ -141,6 +145,7 @@ var checks = map[string][]HarnessSpec{
 		{Name: "HarnessC15Literal", Pkg: "leaf", Quick: map[string]int{"N": 4}, Thorough: map[string]int{"N": 6}},
 		{Name: "HarnessC15LiteralTyped", Pkg: "leaf", Quick: map[string]int{"N": 2}, Thorough: map[string]int{"N": 4}},
 		{Name: "HarnessC15Object", Pkg: "leaf", Quick: map[string]int{"N": 4}, Thorough: map[string]int{"N": 5}},
+		{Name: "HarnessC15Reader", Pkg: "store", Quick: map[string]int{"GOOD": 2}, Thorough: map[string]int{"GOOD": 3}},
 	},
 }
 
